@@ -532,6 +532,37 @@ fn log_enum_impl(maxrec: usize, stride: usize, name: &str) {
 							if bad.is_some() {
 								break;
 							}
+							// a clean end-of-log is taken at face value by the store: it appends behind it WITHOUT repair.
+							// What was read before must still be read, followed by the new record.
+							if end == "eof" && (mode == 0 || off % 5 == 0) {
+								let extra = vec![0xcdu8; 77];
+								let r1 = match Wal::open(&work, Options::default()) {
+									Ok(mut wal) => {
+										let r = wal.append(&extra);
+										let _ = wal.sync();
+										let _ = wal.close();
+										r.is_ok()
+									}
+									Err(_) => false,
+								};
+								let mut all: Vec<Vec<u8>> = Vec::new();
+								let mut last_end = String::new();
+								for id in list_segment_ids(&work, Some("wal")).unwrap_or_default() {
+									let (g, e3) = read_all(&work.join(segment_name(id, "wal")));
+									last_end = e3;
+									all.extend(g.into_iter().map(|x| x.0));
+								}
+								let mut want: Vec<Vec<u8>> = got.iter().map(|x| x.0.clone()).collect();
+								want.push(extra);
+								if !r1 || all != want || last_end != "eof" {
+									bad = Some(format!("{what}: the log read cleanly ({} records, then end-of-log); after appending one more record it reads {} records ending with '{last_end}' (expected the same {} + the new one)", got.len(), all.len(), got.len()));
+									break;
+								}
+								// restore the damaged copy for the repair check below
+								let _ = std::fs::remove_dir_all(&work);
+								std::fs::create_dir_all(&work).unwrap();
+								std::fs::write(&wseg, &dmg).unwrap();
+							}
 							// repair keeps exactly such a prefix, and an append after it is read back
 							if (off % 7 == 0 || mode == 0) && got.len() < recs.len() {
 								let rep = repair_corrupted_wal_segment(&work, seg_id as usize);
